@@ -521,6 +521,12 @@ func runC13(c *Ctx) {
 		{"float-entry", func(t int) []any { return []any{4.0} }, []*Node{refcbor.NFloat64(4)}, map[int64]bool{4: true}, nil},
 		{"text-entry-present", func(t int) []any { return []any{"x"} }, []*Node{refcbor.NTstr("x")}, nil, nil},
 		{"text-entry-absent", func(t int) []any { return []any{"y"} }, []*Node{refcbor.NTstr("y")}, nil, nil},
+		// integer label 0 and the empty text label are two labels
+		{"names-absent-0-while-empty-text-label-present", func(t int) []any { return []any{gen.SpellIntAs(0, t)} }, []*Node{refcbor.NInt(0)}, nil, nil},
+		{"names-absent-empty-text-while-0-present", func(t int) []any { return []any{""} }, []*Node{refcbor.NTstr("")}, map[int64]bool{0: true}, nil},
+		{"empty-text-entry-present", func(t int) []any { return []any{""} }, []*Node{refcbor.NTstr("")}, nil, nil},
+		{"names-0-and-empty-text-both-present", func(t int) []any { return []any{gen.SpellIntAs(0, t), ""} }, []*Node{refcbor.NInt(0), refcbor.NTstr("")}, map[int64]bool{0: true}, nil},
+		{"names-absent-digit-text-while-int-present", func(t int) []any { return []any{"4"} }, []*Node{refcbor.NTstr("4")}, map[int64]bool{4: true}, nil},
 	}
 	for _, cc := range critCases {
 		for tCrit := 0; tCrit < gen.IntSpellings; tCrit++ {
@@ -540,6 +546,10 @@ func runC13(c *Ctx) {
 					if cc.name == "text-entry-present" || cc.name == "names-absent-0-while-text-label-present" {
 						hs.goProt["x"] = int64(1)
 						hs.wireProt.Kids = append(hs.wireProt.Kids, refcbor.NTstr("x"), refcbor.NInt(1))
+					}
+					if cc.name == "names-absent-0-while-empty-text-label-present" || cc.name == "empty-text-entry-present" || cc.name == "names-0-and-empty-text-both-present" {
+						hs.goProt[""] = int64(1)
+						hs.wireProt.Kids = append(hs.wireProt.Kids, refcbor.NTstr(""), refcbor.NInt(1))
 					}
 					// keep the wire map in a deterministic order
 					cw, _ := refcbor.Parse(refcbor.Canon(hs.wireProt))
